@@ -196,24 +196,6 @@ theorem C11_reject_propagates_any (o : Opts) (t : Ty) (v : Val) (h : encB o t v 
 -- what comes back when the value is not canonical (by design of the codec, not defects)
 -- ------------------------------------------------------------------------------------------------
 
-theorem or40 (b : UInt8) : (b ||| 0x40) ||| 0x40 = b ||| 0x40 := by
-  rw [UInt8.or_assoc]; rfl
-
-theorem quiet32_shape (a b c d : UInt8) :
-    quiet32 [a, b, c, d] = [a, b, c, d] ∨ quiet32 [a, b, c, d] = [a, b ||| 0x40, c, d] := by
-  simp only [quiet32]; split <;> simp
-
-/-- quieting is idempotent -/
-theorem quiet32_idem (a b c d : UInt8) : quiet32 (quiet32 [a, b, c, d]) = quiet32 [a, b, c, d] := by
-  by_cases h : ((a &&& 0x7f == 0x7f) && (b &&& 0x80 == 0x80) && !((b &&& 0x7f == 0) && c == 0 && d == 0)) = true
-  · have h1 : quiet32 [a, b, c, d] = [a, b ||| 0x40, c, d] := by simp only [quiet32, h, ↓reduceIte]
-    rw [h1]
-    rcases quiet32_shape a (b ||| 0x40) c d with h2 | h2
-    · exact h2
-    · rw [h2, or40]
-  · have h1 : quiet32 [a, b, c, d] = [a, b, c, d] := by simp only [quiet32, h]; simp
-    rw [h1, h1]
-
 /-- float32 travels through float64 (`float32(value.Float())` / `SetFloat(float64(..))`): what comes back is
     the quieted bit pattern; every non-signalling value comes back bit for bit -/
 theorem C11_float32 (o : Opts) (a b c d : UInt8) (rest : Bytes) (fuel : Nat) :
